@@ -15,4 +15,9 @@ def run(ctx, L, tier):
     M.size_formulas(ctx, L)
     from . import c20
     c20.shared_state(ctx, L)        # no state that survives from one compiled file / call to the next (module, class, closure, default argument)
+    from . import shared_gen as _G
+    _G.generators_read_only(ctx, L)
+    from . import c14 as _c14
+    _c14.precedence(ctx, L)            # array sizes printed as expressions are evaluated by the C++ compiler with *its* precedence
+    _c14.ladders(ctx, L)
     return sorted(set(o.rule for o in L.obligations))
